@@ -25,6 +25,7 @@ REQUIRED_THEOREMS = [
     "geo_file_load_save", "geo_parse_print", "save_guards_bridge", "save_ignore_from_table", "save_preserves_mesh", "save_history",
     "save_history_clearShared_refuted", "second_generation", "load_save_any_representation", "same_values_same_load",
     "stl_reader_soup", "stl_merge_keeps_soup",
+    "ignored_save_is_save_of_restriction", "wireframe_keeps_all_edges",
 ]
 TRUSTED = [
     "Lean 4.33.0 kernel; axioms ⊆ {propext, Classical.choice, Quot.sound}",
@@ -234,6 +235,17 @@ def cases(rng, tier):
         if i >= len(sweep) and rng.random() < 0.08:
             case["dim"] = rng.choice([0, 1, 2, 3])
         yield case
+    # every (mesh class x format x non-empty ignore set) combination, under the default config
+    import itertools
+    subsets = [list(c) for r in (1, 2, 3) for c in itertools.combinations(["edges", "faces", "cells"], r)]
+    for kind in ("poly", "tri+edges", "quad", "tet", "hex", "tet+tri"):
+        for fmt in IO.FORMATS:
+            for ign in subsets:
+                if fmt == "stl" and ("faces" in ign or kind == "poly"): continue     # 0-facet STL: open finding, aborts the reader
+                k2, V, E, F, C = base_mesh(rng, "quick", kind)
+                if fmt == "stl": V = [[_f32(c) for c in v] for v in V]
+                yield {"sc": "rt", "fmt": fmt, "tag": k2, "V": hexV(V), "E": E, "F": F, "C": C,
+                       "cfg": {"ee": 1, "ce": 1}, "ign": ign, "rewrap": 0}
     # histories on one mesh object: save / save again / save to another format / load and save again
     n_hist = 260 if tier == "quick" else 1500
     for i in range(n_hist):
@@ -243,7 +255,7 @@ def cases(rng, tier):
         case = {"sc": "hist", "fmt": fmt, "fmt2": fmt2, "tag": kind, "V": hexV(V), "E": E, "F": F, "C": C,
                 "cfg": {"ee": 1, "ce": 1}, "ign": [], "rewrap": 0}
         if rng.random() < 0.3 and fmt in ("obj", "mesh", "geogram_ascii", "off"):
-            case["ign"] = rng.choice([["edges"], ["faces"], ["cells"], ["edges", "faces"], ["faces", "cells"]])
+            case["ign"] = rng.choice([["edges"], ["faces"], ["cells"], ["edges", "faces"], ["faces", "cells"], ["edges", "cells"], ["edges", "faces", "cells"]])
         if "geogram_ascii" in (fmt, fmt2) and rng.random() < 0.5:
             case["attrs"] = gen_attrs(rng, ("E" if (E or F or C) else "") + ("F" if (F or C) else "") + ("C" if C else ""))
         if rng.random() < 0.3: _set_rep(rng, case)
@@ -917,6 +929,9 @@ def _oracle(case):
 
     def add(kind, aspect, what, detail=""):
         key = f"C04/{fmt}/{kind}/{aspect}"
+        if kind == "edge" and case["sc"] == "rt" and case["ign"]:
+            # which edges have to be written depends on what else stays in the file: name the ignore set and the mesh class
+            key += f"/ignore={'+'.join(sorted(case['ign']))}/{R.get('cls0', '?')}"
         if not any(f["key"] == key for f in out):
             out.append({"key": key, "what": what, "detail": detail})
     if case["sc"] == "rt":
